@@ -15,16 +15,18 @@ RULE = ('one case per (table variant, table row), per (variant, element Z) for t
         'node-set) signatures; every one compares tabulated numbers or a stated absence, none is trivial')
 EXHAUSTIVE = True
 TECHNIQUE = ('runtime monitoring: exhaustive sweep of the live neutron records against an independent regular-expression '
-             're-read of the embedded tables (reference-model monitor); sys.monitoring reach counters on nsf.init and '
-             'nsf.fix_number prove the loader converted every number of every row')
+             're-read of the embedded tables (reference-model monitor); sys.monitoring reach counters on nsf.init and, as '
+             'optional evidence, on the loader helpers nsf.fix_number / nsf.energy_dependent_init')
 LEVEL_TEXT = ('Every row of the embedded neutron table and of its imaginary companion, every atom outside the table and '
               'every node, three interior points of every segment and six points beyond the ends of the 14 energy tables are read through the public attributes of the public table and of private '
               'tables created at several points of a process history, and compared with an independent reader; the sweep '
               'is exhaustive over rows, fields and nodes, so the only sampling is over process histories.')
-LEVEL_NOTE = ('Trusted: the regex reader in pvmon/ref/neutron.py, CPython float parsing, the embedded strings and the source '
-              'text of nsf_tables.py as specification. Energy-table nodes are compared to 1e-12 fm (bit-exact count reported).')
+LEVEL_NOTE = ('Trusted: the regex reader in pvmon/ref/neutron.py, CPython float parsing, the embedded strings and the public data '
+              'nsf_tables.ENERGY_DEPENDENT_TABLES (cross-read from the source text of nsf_tables.py where its layout allows) as specification. Energy-table nodes are compared to 1e-12 fm (bit-exact count reported).')
 SHARDS = {'quick': 4, 'thorough': 8}
-ASSUMPTIONS = ['the embedded table strings and the nsf_tables.py literal are the specification (literature values are not checked)',
+ASSUMPTIONS = ['the embedded table strings and the nsf_tables.ENERGY_DEPENDENT_TABLES literal are the specification (literature values are not checked)',
+               'how often a loader calls its helpers is not part of the property: the counters on nsf.fix_number / nsf.energy_dependent_init are '
+               'evidence, waived (anchor_missing.*) when the helper is absent or a correct loader keeps parsed rows',
                'independent reader pvmon/ref/neutron.py (regular expressions), masses/abundances from pvmon/ref/masses.py',
                'the two documented gap fills (Xe total = coherent + incoherent, Eu-151 b_c = sqrt(coherent/(4 pi/100))) are part of the specification',
                'a half-life entry in the abundance column means "no abundance": 0 or None are both accepted',
@@ -52,12 +54,25 @@ def _private(name):
     return T
 
 
+def function_seen(reach, label):
+    return label in reach.codes.values()
+
+
 def setup(ctx):
     import periodictable as pt
     from periodictable import nsf
     from ..ref.neutron import NeutronModel
-    reach = Reach().watch(nsf.fix_number, 'fix_number').watch(nsf.init, 'nsf.init') \
-        .watch(nsf.energy_dependent_init, 'energy_dependent_init').start()
+    from ..ref.neutron import private, watch_entry
+    # Loader internals (nsf.fix_number, nsf.energy_dependent_init: helpers of nsf.init, in no __all__) are optional
+    # instrumentation.  "Every row was read" is judged by the VALUES the tables serve - the sweep below compares
+    # every field of every row, on the public and on a private table - never by how often a loader calls a helper.
+    reach = Reach()
+    watch_entry(ctx, reach, nsf.init, 'nsf.init')
+    has_fix = watch_entry(ctx, reach, private(ctx, nsf, 'fix_number', ['reach.numbers_converted_by_loader']),
+                          'fix_number', requirements=['reach.numbers_converted_by_loader'])
+    watch_entry(ctx, reach, private(ctx, nsf, 'energy_dependent_init', ['reach.energy_dependent_init']),
+                'energy_dependent_init')
+    reach.start()
     # the public neutron group is touched first (a private nsf table created before that is C10's D7)
     pt.elements.Fe.neutron
     public_calls = reach.counts['fix_number']
@@ -65,6 +80,7 @@ def setup(ctx):
     expected = m.expected_fix_number_calls()
     tables = {'public': pt.elements}
     before = reach.counts['fix_number']
+    before_e = reach.counts['energy_dependent_init']
     tables['private_fresh'] = _private('c07_fresh_%d' % ctx.shard)
     private_calls = reach.counts['fix_number'] - before
     ctx.info['fix_number_calls_public_first_touch'] = public_calls
@@ -75,12 +91,29 @@ def setup(ctx):
                                  'natural_rows': len(m.natural_rows),
                                  'isotope_rows': m.nrows - len(m.natural_rows),
                                  'single_isotope_elements': len(m.single_isotope),
+                                 'energy_tables_read_from': m.energy_source,
                                  'energy_literal_equals_source_text': m.energy_source_matches_literal}
-    if private_calls >= expected:
-        ctx.count('reach.numbers_converted_by_loader', private_calls)
+    if m.energy_source_note:
+        ctx.note('energy tables taken from %s: %s' % (m.energy_source, m.energy_source_note))
+    # observation: numbers the loader was seen converting while it filled the private table
+    ctx.count('reach.numbers_converted_by_loader', private_calls)
+    if has_fix and private_calls < expected:
+        # a loader that parses the embedded strings once and keeps the parsed rows, or converts several numbers per
+        # call, is a correct loader: the call counter is evidence only
+        from ..ref.neutron import anchor_missing
+        anchor_missing(ctx, 'call counter of nsf.fix_number', ['reach.numbers_converted_by_loader'],
+                       why='saw %d conversions during nsf.init(private table), %d on the first public touch, the tables '
+                           'hold %d numbers: this loader does not convert each number once per table (parsed rows kept or '
+                           'another helper used); that every row was read is judged by the values served (rows_checked, '
+                           'imaginary_rows_checked, energy_nodes_checked)' % (private_calls, public_calls, expected))
+    if reach.counts['energy_dependent_init'] - before_e < 1 and function_seen(reach, 'energy_dependent_init'):
+        from ..ref.neutron import anchor_missing
+        anchor_missing(ctx, 'entry counter of nsf.energy_dependent_init', ['reach.energy_dependent_init'],
+                       why='was not entered by nsf.init(private table): the energy tables are attached another way in this '
+                           'tree; that they are attached is judged by the node sweep (energy_nodes_checked)')
     ctx.require('reach.numbers_converted_by_loader', expected,
-                'nsf.init(T) must be observed converting every number of every row '
-                '(7 per row + abundances + 3 per imaginary row)')
+                'nsf.init(T) observed converting every number of every row (7 per row + abundances + 3 per imaginary '
+                'row); evidence only: waived when the loader keeps parsed rows')
     ctx.require('reach.nsf.init', 2, 'nsf.init must have run for the public and for a private table')
     ctx.require('reach.energy_dependent_init', 2, 'energy tables attached for the public and a private table')
     _state['tables'] = tables
@@ -104,16 +137,19 @@ def _history(ctx):
     # mutate every record of one private table, then create another one; the public table is swept again last
     Ta = _private('c07_mut_%d' % ctx.shard)
     import numpy as np
-    for el in Ta:
-        for at in [el] + list(el):
-            n = at.__dict__.get('neutron')
-            if n is None:
-                continue
-            n.b_c, n.total, n.absorption, n.coherent = 1.25, 2.5, 3.75, 5.0
-            n.b_c_complex = 7 - 7j
-            n.abundance, n.is_energy_dependent, n.b_c_i = 12.5, True, -9.
-            if n.nsf_table is not None:
-                n.nsf_table = (n.nsf_table[0], np.zeros_like(n.nsf_table[1]))
+    # the records of the atoms that have a row of their own (the rows of the public data nsf.nsftable; an element
+    # without a natural row shares the record of its isotope) - never the placeholder that stands in for atoms
+    # without a row, which is shared between tables (known finding c10.shared-missing-neutron-placeholder)
+    m = _state['model']
+    for Z, A in m.rows:
+        n = getattr(_atom(Ta, Z, A), 'neutron', None)
+        if n is None:
+            continue
+        n.b_c, n.total, n.absorption, n.coherent = 1.25, 2.5, 3.75, 5.0
+        n.b_c_complex = 7 - 7j
+        n.abundance, n.is_energy_dependent, n.b_c_i = 12.5, True, -9.
+        if getattr(n, 'nsf_table', None) is not None:
+            n.nsf_table = (n.nsf_table[0], np.zeros_like(n.nsf_table[1]))
     tables['private_after_mutation'] = _private('c07_aftermut_%d' % ctx.shard)
     tables['public_after_private'] = pt.elements
 
@@ -418,7 +454,9 @@ def check_coverage(ctx, case):
     """The reader saw the table sizes the property quotes and every row is reachable by the sweep."""
     m = _state['model']
     ctx.evaluated(4, 'coverage')
-    if not m.energy_source_matches_literal:
+    if m.energy_source_matches_literal is None:
+        ctx.count('energy_literal_not_cross_read_from_source_text')      # optional cross-reading not applicable (noted)
+    elif not m.energy_source_matches_literal:
         ctx.violation('ENERGY_DEPENDENT_TABLES in memory differs from the literal in the source text of nsf_tables.py',
                       field='energy-literal')
     bad = [k for k in m.rows if not (0 <= k[0] <= 118)]
